@@ -124,8 +124,17 @@ class PrivHooks(QHooks):
 class LookupHooks(QHooks):
     """nughde_get on a fixed geometry: local part "ab", key "!ab\\0" (len 4)"""
     tracked = frozenset(['G:lower', 'G:wildchars', 'G:nughde'])
-    precise = frozenset(['L:i'])
     KEYLEN = 4
+
+    def precise_arith(self, path):
+        return True         # the key has 4 bytes: every counter over it is concrete
+
+    def materialize(self, E, path):
+        if path == 'G:lower.s':
+            return fs(('&', 'G:lower.s[0]'))
+        if path == 'G:wildchars.s':
+            return fs(('&', 'G:wildchars.s[0]'))
+        return TOP
 
     def __init__(self, eng_ref):
         self.sites = {}
@@ -157,18 +166,13 @@ class LookupHooks(QHooks):
         sa = self._sa(E, x)
         if sa == 'G:nughde' and g1(E, '$hit') is not None:
             i, wild = g1(E, '$hit')
-            eng = E.eng
-            env = {}
-            for y in x.args[1].walk():
-                if y.k == 'cast' and y.op == 'LValueToRValue':
-                    p = eng.canon(E, y.args[0])
-                    if p and p.endswith('P:local'):
-                        env[p] = 1000
-            off = eng.concrete(E, x.args[1], env)
+            # what is appended is an address inside the local part handed to nughde_get (LOCAL[k]), whoever computed it
+            a = next(iter(args[1])) if args[1] is not TOP and len(args[1]) == 1 else None
+            off = int(a[1][6:-1]) if isinstance(a, tuple) and a[0] == '&' and a[1].startswith('LOCAL[') else None
             plen = len(self.prefix or '')
-            self.site('wildcard-remainder-starts-after-the-matched-prefix', x, off is not None and off - 1000 == i - plen,
+            self.site('wildcard-remainder-starts-after-the-matched-prefix', x, off is not None and off == i - plen,
                       'for a wildcard key of %d bytes (prefix literal %r) the appended remainder starts at offset %s of the local part, expected %d' %
-                      (i, self.prefix, None if off is None else off - 1000, i - plen), E)
+                      (i, self.prefix, off, i - plen), E)
             E.set('$appended', fs(1))
         return [Outcome(ret=fs(1))]
 
@@ -195,7 +199,8 @@ class LookupHooks(QHooks):
                 dp = a[1]
         if x.args[1].string == '':
             return [Outcome(ret=fs(1), sets={dp: fs(5)}), Outcome(ret=fs(0)), Outcome(ret=fs(-1), sets={'$err': fs(1)})]
-        if x.args[1].path() != 'G:lower.s':
+        kv = next(iter(args[1])) if args[1] is not TOP and len(args[1]) == 1 else None
+        if x.args[1].path() != 'G:lower.s' and kv != ('&', 'G:lower.s[0]'):
             raise AnalysisBroken('nughde_get: probe key is %s' % x.args[1].src())
         iv = args[2]
         i = next(iter(iv)) if iv is not TOP and len(iv) == 1 else None
@@ -215,7 +220,7 @@ class LookupHooks(QHooks):
         return [Outcome(ret=fs(0)), Outcome(ret=fs(-1), sets={'$err': fs(1)}, log='cdb read error')]
 
     def prim_byte_chr(self, E, x, args):
-        if x.args[0].path() == 'G:wildchars.s':
+        if x.args[0].path() == 'G:wildchars.s' or (args[0] is not TOP and args[0] == fs(('&', 'G:wildchars.s[0]'))):
             n = g1(E, 'G:wildchars.len', 5)
             return [Outcome(ret=fs(0), sets={'$member': fs(True)}, log='break character: member'),
                     Outcome(ret=fs(n), sets={'$member': fs(False)}, log='break character: not a member')]
@@ -667,7 +672,7 @@ def run(ctx):
     r3 = rep.rule('C11.3-lookup-order', 'R-TABLE', 'nughde_get (key "!ab\\0"): exact key first, then shrinking prefixes probed iff they end in a break character (or are the empty prefix), never after a cdb error; remainder offset = key length - prefix literal length')
     LH = LookupHooks(None)
     eng4 = Engine(db, pl, LH, max_states=200000)
-    eng4.run(ng, {})
+    eng4.run(ng, {'%s::%s' % (eng4.frame_id(ng), ng.params[0]): fs(('&', 'LOCAL[0]'))})
     rep.count_states(eng4.states, eng4.transitions)
     for inst, v in sorted(LH.sites.items()):
         r3.check(v[0], inst, v[1], v[2], v[3])
